@@ -49,7 +49,11 @@ def batch_result(sid):
         if f" {sid} " in head + " " or head.rstrip().endswith(" " + sid):
             m = re.search(r"stable_pass=(\d+) passed=(\d+)", t)
             rer = re.search(r"re-running regressed stable tests individually.*?\n(.*)$", t, re.S)
-            return {"batch_log": b.name, "seeds_applied_together": head.split("seeds")[1].split(" on ")[0].split() if "seeds" in head else [],
+            return {"resolution_of_batch_failure": ("batch A failed one stable test (tpu_v4i gpt3 fused regression); group runs of "
+                                                   "that test (batch-A-bisect.log) show it is caused by seed C13 alone (rejected, "
+                                                   "seeded/rejected/C13); this seed belongs to a group that passes the test")
+                    if b.name == "batch-A.log" else None,
+                    "batch_log": b.name, "seeds_applied_together": head.split("seeds")[1].split(" on ")[0].split() if "seeds" in head else [],
                     "stable_pass_total": int(m.group(1)) if m else None, "stable_pass_passed": int(m.group(2)) if m else None,
                     "rerun_of_regressed_tests": (rer.group(1).strip().splitlines() or [None])[-1] if rer else None}
     return None
